@@ -126,6 +126,9 @@ pub fn run(cfg: &RunCfg) -> Ctx {
         all.merge(par_cases(cfg, "sockets", cfg.n(30, 16 * 60), || (), |_, _rng, ctx, i| sockets_case(ctx, i)));
         all.merge(par_cases(cfg, "executor", cfg.n(16, 16 * 16), || (), |_, _rng, ctx, i| executor_case(ctx, i)));
         all.floor("executor.scripts", 8);
+        if all.counters.get("sockets.unavailable").copied().unwrap_or(0) == 0 {
+            all.floor("sockets.balance-list.connect_timeout", 3);
+        }
     }
     all.floor("opt.connect_timeout", 10);
     all.floor("model.call_ok_on_live_connection", 10);
@@ -758,6 +761,7 @@ fn sockets_case(ctx: &mut Ctx, i: u64) {
         if kind == "uds-eager" {
             running = Some(start(handler.clone(), &srv).map_err(|e| ("sockets-unavailable".to_string(), e))?);
         }
+        let mut with_connect_timeout = false;
         let channel = match &srv {
             Srv::Uds(p) => {
                 let ep = Endpoint::from_shared(format!("unix://{}", p)).map_err(|e| ("harness".to_string(), e.to_string()))?;
@@ -772,7 +776,13 @@ fn sockets_case(ctx: &mut Ctx, i: u64) {
                 }
             }
             Srv::Tcp(port) => {
-                let ep = Endpoint::from_shared(format!("http://127.0.0.1:{}", port)).map_err(|e| ("harness".to_string(), e.to_string()))?;
+                let mut ep = Endpoint::from_shared(format!("http://127.0.0.1:{}", port)).map_err(|e| ("harness".to_string(), e.to_string()))?;
+                // every other balanced case bounds its connection attempts: the option must not
+                // change what a call sees while the endpoint is down at its first attempt
+                if (i / 3) % 2 == 1 {
+                    ep = ep.connect_timeout(Duration::from_secs(5));
+                    with_connect_timeout = true;
+                }
                 tonic::transport::Channel::balance_list(vec![ep].into_iter())
             }
         };
@@ -852,6 +862,9 @@ fn sockets_case(ctx: &mut Ctx, i: u64) {
         if let Some((t, _stop)) = running.take() {
             t.abort();
         }
+        if with_connect_timeout {
+            steps.insert(0, "connect_timeout".into());
+        }
         Ok(steps)
     });
     drop(rt);
@@ -864,6 +877,9 @@ fn sockets_case(ctx: &mut Ctx, i: u64) {
         Err((d, w)) => ctx.violation_class(&d, kind, w),
         Ok(steps) => {
             ctx.count(&format!("sockets.{}", kind));
+            if steps.first().map(|s| s == "connect_timeout").unwrap_or(false) {
+                ctx.count("sockets.balance-list.connect_timeout");
+            }
             ctx.distinct("socket_histories", &format!("{}:{}", kind, steps.join(">")));
         }
     }
